@@ -143,3 +143,67 @@ def dtype_inherit(ctx, modules=None):
         visit(f.node.body)
     ctx.ob('DTYPE-INHERIT', True, None, 'arrays with an inherited dtype examined: %d' % n_alloc,
            key='summary')
+
+
+# ------------------------------------------------------------------ DTYPE-NARROW
+_NARROW = ('float32', 'float16', 'single', 'half', 'f4', 'f2', '<f4', '<f2', 'complex64')
+
+
+def dtype_narrow(ctx, modules=None):
+    """Every quantity of the package is a double.  A cast to single / half precision anywhere on
+    the way (`dtype=np.float32`, `.astype('f4')`, `np.float32(x)`) leaves a relative error of
+    6e-8 (1e-3) that no sampling interval, time step or tolerance of the properties absorbs:
+    convergence stalls at that level, bit-identical and first-order statements fail.  The pinned
+    tree has no such cast; the expected count is zero (fixture below)."""
+    ctx.rule('DTYPE-NARROW', 'no value is narrowed to single or half precision (dtype=float32 / '
+             'float16, astype, constructor call)')
+    n = 0
+
+    def narrow(e):
+        if isinstance(e, ast.Constant) and isinstance(e.value, str):
+            return e.value.lower() in _NARROW
+        if isinstance(e, ast.Attribute):
+            return e.attr in _NARROW
+        if isinstance(e, ast.Name):
+            return e.id in _NARROW
+        return False
+
+    def sites(tree):
+        out = []
+        for c in ast.walk(tree):
+            if not isinstance(c, ast.Call):
+                continue
+            if narrow(c.func):
+                out.append(c)                               # np.float32(x)
+                continue
+            for kw in c.keywords:
+                if kw.arg == 'dtype' and narrow(kw.value):
+                    out.append(c)
+            if isinstance(c.func, ast.Attribute) and c.func.attr in ('astype', 'view') and \
+                    c.args and narrow(c.args[0]):
+                out.append(c)
+            if isinstance(c.func, ast.Attribute) and c.func.attr in (
+                    'asarray', 'array', 'zeros', 'empty', 'ones', 'full', 'ascontiguousarray',
+                    'asanyarray', 'require') and len(c.args) >= 2 and narrow(c.args[1]):
+                out.append(c)
+        return out
+    for f in ctx.repo.all_functions():
+        short = f.module.name.split('.')[-1]
+        if modules and short not in modules:
+            continue
+        n += 1
+        for c in sites(f.node):
+            ctx.ob('DTYPE-NARROW', False, None, '%s keeps double precision' % f.qualname, f=f,
+                   node=c, key='narrow-%s-%s' % (f.qualname, norm_text(c)[:40]),
+                   why='`%s` narrows values to single / half precision: a relative error of about '
+                       '6e-8 (1e-3) enters that does not shrink with the sampling interval'
+                       % norm_text(c)[:80])
+    ctx.ob('DTYPE-NARROW', True, None, '%d functions scanned' % n, key='summary')
+    if not ctx.cache.get('dtype-narrow-fixture'):
+        ctx.cache['dtype-narrow-fixture'] = True
+        fx = ast.parse("a = np.asarray(x, dtype=np.float32)\nb = x.astype('f4')\n"
+                       "c = np.float32(x)\nd = np.asarray(x, dtype=float)\ne = x.astype(np.float64)\n")
+        if len(sites(fx)) != 3:
+            raise AssertionError('DTYPE-NARROW fixture not recognised')
+        ctx.ob('DTYPE-NARROW', True, None, 'positive fixture: three narrowing casts detected, two '
+               'double casts silent', key='fixture')
